@@ -90,4 +90,37 @@ class Action:
         for effect in self.numeric_effects:
             effect.change_signature(old_to_new_parameter_names)
 
-        # TODO: change the signature of the conditional and universal effects.
+        for conditional_effect in self.conditional_effects:
+            self._change_conditional_effect_signature(
+                conditional_effect, old_to_new_parameter_names
+            )
+
+        for universal_effect in self.universal_effects:
+            quantified_parameter = universal_effect.quantified_parameter
+            extended_parameter_names = {
+                quantified_parameter: quantified_parameter,
+                **old_to_new_parameter_names,
+            }
+            universal_effect.quantified_parameter = extended_parameter_names[
+                quantified_parameter
+            ]
+            for conditional_effect in universal_effect.conditional_effects:
+                self._change_conditional_effect_signature(
+                    conditional_effect, extended_parameter_names
+                )
+
+    @staticmethod
+    def _change_conditional_effect_signature(
+        conditional_effect: ConditionalEffect, old_to_new_parameter_names: Dict[str, str]
+    ) -> None:
+        """Changes the parameter names in the antecedents and the results of a conditional effect.
+
+        :param conditional_effect: the conditional effect to change.
+        :param old_to_new_parameter_names: the mapping between the old and new parameter names.
+        """
+        conditional_effect.antecedents.change_signature(old_to_new_parameter_names)
+        for effect in conditional_effect.discrete_effects:
+            effect.change_signature(old_to_new_parameter_names)
+
+        for effect in conditional_effect.numeric_effects:
+            effect.change_signature(old_to_new_parameter_names)
